@@ -391,7 +391,8 @@ let handle_ser lineno line r =
       let back = match next r with "BACK" -> Some (read_msg m r) | _ -> None in
       let mback = wire_dec m mj in
       if mback <> back then corr lineno line "ser-back" (Printf.sprintf "model=%s impl=%s" (clip (show_mval_opt mback)) (clip (show_mval_opt back)));
-      let typed = wire_typed m v in
+      (* a message of the documented API: the status is one of the three documented discriminants *)
+      let typed = (match doc_msg_by_name name with Some dm -> wire_doc_typed dm v | None -> wire_typed m v) in
       if typed then begin
         if back <> Some v then mon lineno line "m3-reserialise-identity" (Printf.sprintf "sent=%s back=%s" (clip (show_mval v)) (clip (show_mval_opt back)));
         (match doc_msg_by_name name with
@@ -468,12 +469,13 @@ let read_tgot (req : w_msg) (r : reader) : tgot =
   | "S" -> let v = read_msg req r in expect_tok r "TRESER"; let t = next r in TS (v, ocaml_of_hex t)
   | _ -> ignore (next r); TMany
 
-(* can the client build this request?  (UserId = 33-byte key, Locator = 16 bytes, signatures are never empty) *)
+(* can the client build this request?  (UserId = 33-byte key, Locator = 16 bytes, an encrypted penalty and a signature are never empty) *)
 let emittable (i : int) (req : w_mval) : bool =
   let len l = List.length l in
   match i, req with
   | 0, WMVStruct (WVCons (WVBytes u, WVNil)) -> len u = 33
-  | 1, WMVStruct (WVCons (WVSome (WMVStruct (WVCons (WVBytes l, _))), WVCons (WVStr s, WVNil))) -> len l = 16 && s <> []
+  | 1, WMVStruct (WVCons (WVSome (WMVStruct (WVCons (WVBytes l, WVCons (WVBytes b, _)))), WVCons (WVStr s, WVNil))) ->
+      len l = 16 && b <> [] && s <> []
   | 2, WMVStruct (WVCons (WVBytes l, WVCons (WVStr s, WVNil))) -> len l = 16 && s <> []
   | 3, WMVStruct (WVCons (WVStr s, WVNil)) -> s <> []
   | _ -> false
@@ -576,7 +578,7 @@ let handle_http lineno line r =
     if forwarded then begin
       match script with
       | `Ok resp ->
-          let typed = wire_typed doc_resp resp in
+          let typed = wire_doc_typed doc_resp resp in
           if typed then begin
             let dj = wire_doc_enc doc_resp resp in
             if repj <> Some dj then mon lineno line "m4-reply-format" (Printf.sprintf "documented=%s wire=%s" (clip (show_json dj)) (clip (show_json_opt repj)));
